@@ -13,7 +13,7 @@ func init() {
 		ID: "C10",
 		Explanation: "Decided: the LIVENESS SKELETON of reclamation — the release step runs at every writer begin (after the meta copy, under metalock); every way a read transaction can end reaches the de-registration of its id (Rollback -> nonPhysicalRollback -> close -> removeTx -> RemoveReadonlyTXID, View's three exits, freepages' deferred Rollback); " +
 			"registration and de-registration use the same key; with no reader registered ReleasePendingPages releases everything (tabulated: release(MaxUint64-1) and the trailing releaseRange are unconditional); order-dependent lookups in the reader list are preceded by a sort; the writer publishes the free/pending counts before releasing the writer lock. " +
-			"NOT decided: the bound 'at most the pages of that very commit are withheld' (needs the value semantics of release/releaseRange), behaviour across reopen.",
+			"NOT decided: the bound 'at most the pages of that very commit are withheld' (needs the value semantics of release/releaseRange), behaviour across reopen. Round 4: RemoveReadonlyTXID removes exactly one registration per call.",
 		Run: func(c *Ctx) {
 			ruleOneRegistrationRemoved(c, "C10.R10")
 			c10R1(c, "C10.R1")
